@@ -2248,6 +2248,7 @@ fn geometry_fault(rng: &mut Rng, s: &SizeInfo, faults: &mut Vec<Fault>) {
                 Fault::new("geo_width_skew", Op::GeoWidth { w: nw as u32 })
             }
         }
+        8 if rng.chance(1, 4) => Fault::new("geo_frame", Op::GeoScale { k: rng.range(2, 4) as u32 }),
         8 if rng.chance(1, 3) => Fault::new("geo_frame", Op::GeoFrame { n: rng.range(1, 3) as u32, fill: rng.below(3) as u32 }),
         8 if rng.chance(1, 2) => {
             let side = rng.below(4) as u32;
@@ -2733,6 +2734,26 @@ fn beyond_radius_faults(ctx: &Ctx, rng: &mut Rng, s: &SizeInfo, faults: &mut Vec
                 let mut w = bounded_weights(rng, s);
                 w[b] = 0;
                 weighted_cw_faults(rng, s, &w, faults);
+            }
+        }
+        6 | 7 if rng.chance(1, 4) => {
+            // density 1 with ONE value: the whole word, one block, or one block's data / EC part reads a single byte
+            // everywhere (a saturated or blank read): constant words are codewords only for the value zero
+            let c = *rng.pick(&[0xFFu8, 0xFF, 0x00, 129, 0x55, 0x01]);
+            let c = if rng.chance(1, 4) { rng.byte() } else { c };
+            let b = rng.below(s.blocks);
+            let scope = rng.below(4);
+            for p in 0..s.n_total() {
+                let inb = s.block_of(p) == b;
+                let hit = match scope {
+                    0 => true,
+                    1 => inb,
+                    2 => inb && !s.is_ec(p),
+                    _ => inb && s.is_ec(p),
+                };
+                if hit {
+                    faults.push(Fault::new("cw_replace", Op::CwSet { pos: p as u32, val: c }));
+                }
             }
         }
         6 | 7 => {
